@@ -438,8 +438,11 @@ class Check:
             ev["coverage"]["notes"] = self.notes
         if self.known_hit:
             ev["coverage"]["known_findings_hit"] = self.known_hit
-        os.makedirs(os.path.join(VERIF, "evidence"), exist_ok=True)
-        with open(os.path.join(VERIF, "evidence", self.pid + ".json"), "w") as fh:
+        # evidence describes runs against the repository itself; runs against another tree (VERIF_REPO: mutants,
+        # seeded changes) must not overwrite it
+        evdir = os.path.join(VERIF, "evidence") if os.path.realpath(REPO) == "/repo" else os.path.join(scratch(), "evidence")
+        os.makedirs(evdir, exist_ok=True)
+        with open(os.path.join(evdir, self.pid + ".json"), "w") as fh:
             json.dump(ev, fh, indent=1, sort_keys=True, default=str)
             fh.write("\n")
         sys.stdout.flush()
